@@ -13,6 +13,11 @@ from .blocks_c08 import BU, flat
 from .coordinates_c13 import _coords, _rand_coords
 
 UT = "verde.utils"
+# names are deliberately NOT in alphabetical (or any sorted) order: a column/coordinate order that depends on
+# sorting the names instead of on the order they were given must show
+_XN = ["upward", "time", "extra", "zz_top"]
+_VN = ["scalars", "alpha", "zeta", "beta", "gamma"]
+
 
 
 # ---------------------------------------------------------------- uniform views of xarray / pandas objects
@@ -271,16 +276,16 @@ class MakeXarrayGrid(Contract):
         else:
             coords, data = _grid_inputs(B, cfg["form"], cfg["nvars"], cfg["nextra"])
         nv, nx = cfg["nvars"], cfg["nextra"]
-        names = ["var%d" % k for k in range(nv - (1 if cfg.get("bad_names") else 0))] if nv else None
+        names = [_VN[k] for k in range(nv - (1 if cfg.get("bad_names") else 0))] if nv else None
         if nv == 1 and not cfg.get("bad_names"):
-            names = "var0"
+            names = _VN[0]
         kw = {}
         if "dims" in cfg:
             kw["dims"] = cfg["dims"]
         if nx:
-            kw["extra_coords_names"] = ["extra%d" % k for k in range(nx)] if not cfg.get("bad_extra") else None
+            kw["extra_coords_names"] = [_XN[k] for k in range(nx)] if not cfg.get("bad_extra") else None
             if nx == 1 and not cfg.get("bad_extra"):
-                kw["extra_coords_names"] = "extra0"
+                kw["extra_coords_names"] = _XN[0]
         return (coords, data, names), kw
 
     def raises(self, a):
@@ -322,7 +327,7 @@ class MakeXarrayGrid(Contract):
             coords = [e1, n1] if rng.random() < 0.5 else list(np.meshgrid(e1, n1))
             coords += [nrng.uniform(0, 1, (nn, ne)) for _ in range(nx)]
             data = tuple(nrng.uniform(0, 1, (nn, ne)) for _ in range(nv)) if nv else None
-            kw = {"extra_coords_names": ["x%d" % k for k in range(nx)]} if nx else {}
+            kw = {"extra_coords_names": [_XN[k] for k in range(nx)]} if nx else {}
             if rng.random() < 0.3:
                 kw["dims"] = ("lat", "lon")
             yield (tuple(coords), data, ["v%d" % k for k in range(nv)] if nv else None), kw
@@ -374,8 +379,8 @@ def _sym_dataset(B, nvars, nextra, dims=("northing", "easting"), order="ne"):
     e1, n1 = B.array("e1", (ne,)), B.array("n1", (nn,))
     coords = {dims[1]: e1, dims[0]: n1} if order == "en" else {dims[0]: n1, dims[1]: e1}
     for k in range(nextra):
-        coords["extra%d" % k] = (dims, B.array("x%d" % k, (nn, ne)))
-    dv = {"var%d" % k: (dims, B.array("v%d" % k, (nn, ne))) for k in range(nvars)}
+        coords[_XN[k]] = (dims, B.array("x%d" % k, (nn, ne)))
+    dv = {_VN[k]: (dims, B.array("v%d" % k, (nn, ne))) for k in range(nvars)}
     return SymDataset(dv, coords)
 
 
@@ -385,7 +390,7 @@ class GridToTable(Contract):
     target = UT + ":grid_to_table"
 
     def configs(self, tier):
-        out = [{"kind": "ds", "nvars": 1, "nextra": 0}, {"kind": "ds", "nvars": 2, "nextra": 1, "order": "en"}, {"kind": "ds", "nvars": 1, "nextra": 0, "dims": ("lat", "lon")}, {"kind": "da", "name": "topo"}, {"kind": "da", "name": None}, {"kind": "da", "name": "topo", "nextra": 1}]
+        out = [{"kind": "ds", "nvars": 1, "nextra": 0}, {"kind": "ds", "nvars": 2, "nextra": 1, "order": "en"}, {"kind": "ds", "nvars": 1, "nextra": 0, "dims": ("lat", "lon")}, {"kind": "da", "name": "topo"}, {"kind": "da", "name": None}, {"kind": "da", "name": "topo", "nextra": 1}, {"kind": "ds", "nvars": 1, "nextra": 2}, {"kind": "da", "name": "topo", "nextra": 2}]
         if tier == "thorough":
             out += [{"kind": "ds", "nvars": 4, "nextra": 3}]
         return out
@@ -397,7 +402,7 @@ class GridToTable(Contract):
         nn, ne = B.dim("nn", 1), B.dim("ne", 1)
         coords = {dims[0]: B.array("n1", (nn,)), dims[1]: B.array("e1", (ne,))}
         for k in range(cfg.get("nextra", 0)):
-            coords["extra%d" % k] = (dims, B.array("x%d" % k, (nn, ne)))
+            coords[_XN[k]] = (dims, B.array("x%d" % k, (nn, ne)))
         return (SymDataArray(B.array("vals", (nn, ne)), coords=coords, dims=dims, name=cfg["name"]),), {}
 
     def samples(self, rng, nrng, tier):
@@ -409,7 +414,7 @@ class GridToTable(Contract):
             dims = rng.choice([("northing", "easting"), ("lat", "lon")])
             coords = {dims[1]: e1, dims[0]: n1} if rng.random() < 0.5 else {dims[0]: n1, dims[1]: e1}
             for k in range(rng.randint(0, 2)):
-                coords["extra%d" % k] = (dims, nrng.uniform(0, 1, (nn, ne)))
+                coords[_XN[k]] = (dims, nrng.uniform(0, 1, (nn, ne)))
             if rng.random() < 0.6:
                 yield (xr.Dataset({"v%d" % k: (dims, nrng.uniform(0, 1, (nn, ne))) for k in range(rng.randint(1, 4))}, coords=coords),), {}
             else:
@@ -478,7 +483,7 @@ class LemmaRoundtrip(Contract):
 
     def setup(self, B, cfg):
         coords, data = _grid_inputs(B, cfg["form"], cfg["nvars"], cfg["nextra"])
-        return (coords, data, ["var%d" % k for k in range(cfg["nvars"])], ["extra%d" % k for k in range(cfg["nextra"])] or None), {}
+        return (coords, data, [_VN[k] for k in range(cfg["nvars"])], [_XN[k] for k in range(cfg["nextra"])] or None), {}
 
     def requires(self, a):
         c0, c1 = a.coordinates[0], a.coordinates[1]
